@@ -22,6 +22,10 @@ pub struct Input {
     pub models: Option<Vec<u32>>, // truth table of the source (n <= 16)
 }
 
+/// d4's root idiom (`o 1 0` with one unlabelled edge) as a class of the input space; off until the
+/// loader repair F12 (repo_patches/F12-or-with-true-child.patch) and its model are in
+pub const D4_ROOT_IDIOM: bool = false;
+
 pub fn make_input(id: String, src: &Source, rng: &mut Rng) -> Option<Input> {
     make_input_class(id, src, rng, false)
 }
@@ -70,7 +74,10 @@ pub fn make_input_class(id: String, src: &Source, rng: &mut Rng, c2d_false: bool
         let e = format!("c2d keep_true={} keep_false={}", co.keep_true as u8, co.keep_false as u8);
         ("c2d", emit_c2d(&dag, src.n, &co), e)
     } else {
-        if rng.chance(1, 8) {
+        if D4_ROOT_IDIOM && rng.chance(1, 4) {
+            let dag2 = crate::gen::with_d4_root(&dag);
+            ("d4", emit_d4(&dag2, &opts, rng), "d4 root idiom (or node 1 with one unlabelled edge)".to_string())
+        } else if rng.chance(1, 8) {
             let dag2 = crate::gen::add_trivial_ands(&dag, rng);
             ("d4", emit_d4(&dag2, &opts, rng), "d4 trivial and-components (and-nodes over t only / with an extra t child)".to_string())
         } else {
@@ -297,9 +304,52 @@ fn wide_id_cases(ctx: &Ctx, rng: &mut Rng, out: &mut dyn Write) {
     }
 }
 
+/// total feature counts around the loader's internal table size (100 000): a small formula on
+/// small ids, everything above is free; count = models * 2^(free features)
+fn table_boundary_cases(rng: &mut Rng, out: &mut dyn Write) {
+    use num::BigUint;
+    use std::fmt::Write as _;
+    for (k, &total) in [99_999u32, 100_000, 100_001, 131_072].iter().enumerate() {
+        let nv = 3u32;
+        let small = vec![vec![1, 2], vec![-1, 3]];
+        let ms = models(&small, nv);
+        // the last feature is unmentioned, or (second variant) the formula lives on the top ids
+        for top in [false, true] {
+            let ids: Vec<u32> = if top { vec![total - 2, total - 1, total] } else { vec![1, 2, 3] };
+            let cnf = rename_cnf(&small, &|v| ids[(v - 1) as usize]);
+            let mut order = ids.clone();
+            rng.shuffle(&mut order);
+            let opts = Opts { decomp: false, share: true, keep_false: false, and_false: false, neg_first: rng.coin(), interleave: true, order };
+            let dag = match compile(&cnf, &opts) {
+                Some(d) => d,
+                None => continue,
+            };
+            let lines = emit_d4(&dag, &opts, rng);
+            let count = BigUint::from(ms.len()) << ((total - nv) as usize);
+            let mut s = String::new();
+            writeln!(s, "case c01-tablesize-{}-{} C01", k, top as u8).unwrap();
+            writeln!(s, "info total features {} around the occurrence-table size, formula on ids {:?}", total, ids).unwrap();
+            writeln!(s, "n {}", total).unwrap();
+            writeln!(s, "src_count {}", count).unwrap();
+            s.push_str(&file_block("d4", &lines));
+            match load(&lines, Some(total)) {
+                Err(e) => writeln!(s, "impl panic {}", e).unwrap(),
+                Ok(d) => {
+                    writeln!(s, "bigcircuit {}", d.nodes.len()).unwrap();
+                    writeln!(s, "impl nvars {}", d.number_of_variables).unwrap();
+                    writeln!(s, "impl rc {}", d.rc()).unwrap();
+                }
+            }
+            writeln!(s, "end").unwrap();
+            out.write_all(s.as_bytes()).unwrap();
+        }
+    }
+}
+
 pub fn run(_kind: &str, ctx: &Ctx, out: &mut dyn Write) {
     let mut rng = Rng::new(ctx.seed);
     wide_id_cases(ctx, &mut rng, out);
+    table_boundary_cases(&mut rng, out);
     let srcs = sources(ctx, &mut rng);
     let mut k = 0;
     for src in srcs.iter() {
